@@ -1,7 +1,7 @@
 (* Codec correspondence: decode / encode calls observed on the Go implementation,
    replayed on decode_def / encode_def over the definitions extracted from the
    current source. *)
-From NV Require Import Lib.Base Codec.Lang Codec.Def Codec.Sem Codec.Dispatch Gen.GenMsgs Gen.GenTypes.
+From NV Require Import Lib.Base Codec.Lang Codec.Def Codec.Sem Codec.Dispatch Codec.GenDefs Gen.GenMsgs Gen.GenTypes.
 From Coq Require Import String.
 Open Scope N_scope.
 
